@@ -40,6 +40,7 @@ func runShutdown(c *run.Ctx, state string, actions []string, parkHook bool, pend
 		return sim.DialDecision{}
 	}
 	saveRelease := make(chan struct{})
+	savePublishDone := make(chan struct{})
 	saveHeld := false
 	gatedWrite := false
 	failNextWrite := false
@@ -308,7 +309,11 @@ func runShutdown(c *run.Ctx, state string, actions []string, parkHook bool, pend
 				<-saveRelease
 			}
 		}
-		go d.Publish(1+c.Rng.Intn(2), false, 3)
+		saveLevel := 1 + c.Rng.Intn(2)
+		go func() {
+			d.Publish(saveLevel, false, 3)
+			close(savePublishDone)
+		}()
 		select {
 		case <-saveEntered:
 		case <-time.After(sim.StepTimeout):
@@ -389,6 +394,13 @@ func runShutdown(c *run.Ctx, state string, actions []string, parkHook bool, pend
 		time.Sleep(time.Duration(1+c.Rng.Intn(5)) * time.Millisecond)
 		close(saveRelease)
 		saveHeld = false
+		// the publish call comes back before anything of it is looked at
+		select {
+		case <-savePublishDone:
+		case <-time.After(sim.StepTimeout):
+			stuck("the publish that sat in Save did not return")
+			return
+		}
 	} else if state == "dialing" && dialerIgnoresCancel {
 		// nothing can interrupt such a Dialer: the actions wait for it; let them
 		// get there, then the dial comes back with a connection nobody wants
